@@ -111,6 +111,9 @@ type Client struct {
 func (s *Sim) NewTCPClient(inst *Instance, name string) *Client {
 	c := &Client{Name: name, Inst: inst, TCP: true, sim: s}
 	c.conn, c.srv = NewConnPair(name)
+	s.mu.Lock()
+	s.allConns = append(s.allConns, c.conn, c.srv)
+	s.mu.Unlock()
 	inst.conns++
 	started := make(chan struct{})
 	go func() {
